@@ -345,7 +345,13 @@ void Future<void>::Private::FastSignal::set()
 void Future<void>::Private::FastSignal::reset()
 {
   if (Atomic::swap(_state, 0) == 1)
+  {
     _signal.reset();
+    // a set() that came after the swap may have signaled before the reset above: it left
+    // _state == 1, so that no later set() would signal again
+    if (Atomic::load(_state))
+      _signal.set();
+  }
 }
 
 bool Future<void>::Private::FastSignal::wait()
